@@ -233,6 +233,7 @@ type caseCtx struct {
 	origin *sim.Region
 	info   *core.RegionInfo
 	fit    *placement.RegionFit // placement rules on
+	suffix string               // ":after-rule-update" etc.: what changed in this cluster before the check
 }
 
 func (c *caseCtx) rulesOn() bool { return c.k.World.Rules != "off" }
@@ -372,7 +373,7 @@ func (c *caseCtx) judgeSteps(s *stats, checkerName, via, desc, opString string, 
 		for k, v := range extra {
 			wit[k] = v
 		}
-		s.report(&finding{Key: checkerName + ":" + kind + ":" + desc, Size: size, Witness: wit,
+		s.report(&finding{Key: checkerName + ":" + kind + ":" + desc + c.suffix, Size: size, Witness: wit,
 			What: fmt.Sprintf("%s (%s, %s) proposed %q for region [%s]: %s", checkerName, via, w.Mode, desc, c.k.Region, what)})
 	}
 
@@ -576,7 +577,7 @@ func (c *caseCtx) judgeSteps(s *stats, checkerName, via, desc, opString string, 
 					hl = "healthy"
 				}
 				s.count("learner_removed_first_"+checkerName+"_"+desc+"_"+w.Mode+"_"+hl, 1)
-				s.report(&finding{Key: "operator-builder:learner-replaced-by-voter-is-removed-before-the-add", Size: size,
+				s.report(&finding{Key: "operator-builder:learner-replaced-by-voter-is-removed-before-the-add" + c.suffix, Size: size,
 					What:    fmt.Sprintf("%s (%s, %s) proposed %q for region [%s]: step %d removes the learner on store %d before step %d adds its replacement (a voter) on store %d", checkerName, via, w.Mode, desc, c.k.Region, removes[0].idx, removes[0].store, adds[0].idx, adds[0].store),
 					Witness: map[string]interface{}{"case": c.k, "checker": checkerName, "via": via, "origin": c.origin.Describe(), "operator": opString, "desc": desc, "steps": stepStrings, "trace": append([]string(nil), trace...)}})
 			} else {
@@ -745,7 +746,7 @@ func (c *caseCtx) judgeNil(s *stats, checkerName, via string) {
 	if c.fit != nil {
 		wit["fit"] = describeFit(c.fit)
 	}
-	s.report(&finding{Key: checkerName + ":" + kind + ":" + via, Size: len(w.Stores)*100 + len(c.origin.Peers)*10 + len(w.RuleSet)*5, Witness: wit,
+	s.report(&finding{Key: checkerName + ":" + kind + ":" + via + c.suffix, Size: len(w.Stores)*100 + len(c.origin.Peers)*10 + len(w.RuleSet)*5, Witness: wit,
 		What: fmt.Sprintf("%s (%s, %s) proposed nothing for region [%s] although %s and store %d %v is up, connected, empty, unloaded, unconstrained and on a location of its own", checkerName, via, w.Mode, c.k.Region, need, id, v.Labels)})
 }
 
